@@ -38,6 +38,15 @@ class ContinueEx(Exception):
     pass
 
 
+class LazyGen:
+    """a generator expression whose element or condition has effects: nothing of it runs before it is consumed"""
+
+    def __init__(self, comp, env):
+        self.comp = comp          # the equivalent list comprehension over the already evaluated outermost iterable
+        self.env = env
+        self.consumed = False
+
+
 class PathEnd(Exception):
     """the path is over (assumption became inconsistent / loop iteration finished)"""
 
@@ -357,6 +366,13 @@ class Exec:
         if isinstance(props, str):
             props = [props]
         props = set(props)
+        if self.task is not None and self.task.role in self.engine.carry and not soft:
+            # the contract of a helper / scope-stack method is what its callers assume at the call site: every
+            # property whose check runs such callers carries the callee's own obligations (modularity: a callee is
+            # checked against the contract its callers use)
+            props |= self.engine.carry[self.task.role]
+        if self.task is not None and getattr(self.task, 'carried_by', None) and not soft:
+            props |= self.task.carried_by
         if getattr(self, 'in_prologue', False):
             # the creator of a closure is verified by its own task; here it only builds the environment
             if not isinstance(goal, bool):
@@ -709,6 +725,8 @@ class Exec:
         """convert an interpreter-level value into a Val term"""
         if isinstance(v, z3.ExprRef):
             return v
+        if isinstance(v, LazyGen):
+            return self.force(v)
         if isinstance(v, St):
             return self.engine.static_val(self, v)
         if isinstance(v, Closure):
@@ -1104,7 +1122,9 @@ class Exec:
             return L.BoolV(z3.Not(self.truthy(v)))
         if isinstance(node.op, ast.USub):
             return self.engine.model.unary_neg(self, v)
-        raise Unsupported('unary op')
+        if isinstance(node.op, ast.UAdd):
+            return self.engine.model.unary_pos(self, v)
+        return self.engine.model.unary_invert(self, v)
 
     def ex_BoolOp(self, node, env):
         # short circuit, value of the deciding operand
@@ -1201,9 +1221,31 @@ class Exec:
         return tuple(self.eval(e, env) for e in node.elts)
 
     def ex_GeneratorExp(self, node, env):
-        lc = ast.ListComp(elt=node.elt, generators=node.generators)
+        from .loops import has_effects
+        gens = node.generators
+        if not has_effects([node.elt] + [c for g in gens for c in g.ifs] + [g.iter for g in gens[1:]]):
+            # nothing observable happens when the elements are produced: when they are produced does not matter
+            lc = ast.ListComp(elt=node.elt, generators=gens)
+            ast.copy_location(lc, node)
+            return self.engine.loops.list_comp(self, lc, env)
+        # Python evaluates the outermost iterable at once and everything else on consumption
+        genv = Env(env)
+        genv.vars['.0'] = self.eval(gens[0].iter, env)
+        first = ast.comprehension(target=gens[0].target, iter=ast.Name(id='.0', ctx=ast.Load()), ifs=gens[0].ifs, is_async=0)
+        lc = ast.ListComp(elt=node.elt, generators=[first] + list(gens[1:]))
         ast.copy_location(lc, node)
-        return self.engine.loops.list_comp(self, lc, env)
+        ast.fix_missing_locations(lc)
+        self.event('lazy_generator', node.lineno)
+        return LazyGen(lc, genv)
+
+    def force(self, v):
+        """consume a lazy generator where Python would: its elements are produced now, once"""
+        if isinstance(v, LazyGen):
+            if v.consumed:
+                return L.ListV(self.new_list(z3.IntVal(0), z3.K(I, L.NoneV)))
+            v.consumed = True
+            return self.engine.loops.list_comp(self, v.comp, v.env)
+        return v
 
     def ex_DictComp(self, node, env):
         return self.engine.loops.dict_comp(self, node, env)
